@@ -98,6 +98,18 @@ PROPS["C05"] = {
     "assumptions": [],
 }
 
+PROPS["C11"] = {
+    "claim": "after every map-style or node-style update both views of the attribute map and of the namespace map agree "
+             "with a reference insertion-ordered map on every accessor; updates keep node and position; the other map and "
+             "the children are untouched",
+    "harnesses": [H("h_c11_attrs", {"STEPS": 1}, {"STEPS": 2}, shards={"quick": shard_product(("nn", 3), ("na", 3)), "thorough": shard_product(("nn", 3), ("na", 3), ("op", 14))}),
+                  H("h_c11_namespaces", {"STEPS": 1}, {"STEPS": 2}, shards={"quick": shard_product(("nn", 3), ("na", 2)), "thorough": shard_product(("nn", 3), ("na", 2))})],
+    "bounds": {"quick": "element with 0-2 namespace and 0-2 attribute nodes, 1 update out of 14 (attributes) / 10 (namespaces) "
+                        "on 3 keys, values symbolic", "thorough": "every sequence of 2 updates"},
+    "outside": "to_hashmap beyond size and per-key lookup (HashMap is summarised); serialisation order of the entries (see C01/C16)",
+    "assumptions": [],
+}
+
 PROPS["DBG"] = {
     "claim": "debug probes", "harnesses": [H("h_probe_tree"), H("h_probe_tostring"), H("h_probe_parse")],
     "bounds": {"quick": "-", "thorough": "-"}, "outside": "", "assumptions": [],
